@@ -22,7 +22,11 @@ RULE = (
     "the start of a bare thread, the creator's action at the start of a task), identical before being parked and after "
     "being resumed; the observed forest (independent reconstruction; siblings as sets, per-worker order kept) equals the "
     "model and is identical for every plan of the same program; C02's invariants hold on each run. Non-trivial: >= 2 "
-    "workers that each hold an entered action while >= 2 context switches happen between them. Distinct = canonical JSON."
+    "workers that each hold an entered action while >= 2 context switches happen between them. Facet cross-effects "
+    "(enumerated, 36 scenarios): while one thread/task holds action A (with / context() / a generator's with-block), another "
+    "one - bare or inside its own action - finishes A, tries to leave A's block from its own context (directly or by closing "
+    "that generator; contextvars may refuse), or enters and leaves A.context()/A.run(): neither worker's current_action() "
+    "changes. Distinct = canonical JSON."
 )
 ASSUMPTIONS = [
     "sibling order among concurrent workers is schedule-dependent by design and not compared",
@@ -116,7 +120,206 @@ def strategy(mode):
     )
 
 
+# ------------------------------------------------------------ cross effects
+
+
+def check_cross(case):
+    """
+    One worker (thread or asyncio task) holds action A; another worker, inside its own action B (or none), then
+    (a) finishes A, or (b) tries to leave A's block from its own context (directly, or by closing a generator that
+    holds A open), or (c) enters and leaves A's context()/run() itself.  Neither worker's current_action() may change.
+    """
+    import asyncio
+    import contextvars
+    import threading
+
+    from eliot import Logger, current_action, start_action
+    from eliot._output import Destinations
+
+    saved = Logger._destinations
+    fresh = Destinations()
+    Logger._destinations = fresh
+    msgs = []
+    fresh.add(lambda m: msgs.append(dict(m)))
+    errors = []
+    op = case["op"]
+    how = case["how"]
+    own = bool(case["own"])
+
+    def holder_enter(A):
+        if how == "with":
+            A.__enter__()
+            return lambda: A.__exit__(None, None, None)
+        cm = A.context()
+        cm.__enter__()
+        return lambda: cm.__exit__(None, None, None)
+
+    def generator_holding(A):
+        def gen():
+            with A:
+                yield 1
+                yield 2
+
+        return gen()
+
+    def other_side(A, held):
+        """Runs in the second worker while the first holds A."""
+        base = current_action()
+        B = start_action(action_type="c05:own") if own else None
+        leave_b = holder_enter(B) if own else None
+        try:
+            before = current_action()
+            if before is not (B if own else base):
+                errors.append("second worker: current_action() is %s after entering its own action" % conc._desc(before))
+            try:
+                if op == "finish":
+                    A.finish()
+                elif op == "exit":
+                    A.__exit__(None, None, None)
+                elif op == "close-generator":
+                    held["gen"].close()
+                elif op == "context":
+                    with A.context():
+                        if current_action() is not A:
+                            errors.append("second worker inside A.context(): current_action() is %s" % conc._desc(current_action()))
+                elif op == "run":
+                    A.run(lambda: None)
+            except (ValueError, RuntimeError):
+                # leaving a block from a foreign context is refused by contextvars: fine, as long as nothing leaks
+                pass
+            if current_action() is not before:
+                errors.append("second worker: %s on the other worker's action changed its current_action() from %s to %s" % (op, conc._desc(before), conc._desc(current_action())))
+        finally:
+            if own:
+                try:
+                    leave_b()
+                except (ValueError, RuntimeError):
+                    errors.append("second worker could not leave its own action afterwards")
+                B.finish()
+
+    def first_side_check(A, when):
+        if current_action() is not A:
+            errors.append("first worker %s: current_action() is %s, expected its own action" % (when, conc._desc(current_action())))
+
+    try:
+        if case["mode"] == "thread":
+            def run():
+                with start_action(action_type="c05:parent"):
+                    A = start_action(action_type="c05:held")
+                    held = {}
+                    entered = threading.Event()
+                    done = threading.Event()
+
+                    def first():
+                        if op == "close-generator":
+                            held["gen"] = generator_holding(A)
+                            next(held["gen"])
+                            # the generator's with-block set this worker's context
+                            first_side_check(A, "after advancing its generator")
+                            entered.set()
+                            done.wait(10)
+                            first_side_check(A, "after the other worker acted")
+                            return
+                        leave = holder_enter(A)
+                        first_side_check(A, "after entering")
+                        entered.set()
+                        done.wait(10)
+                        first_side_check(A, "after the other worker acted")
+                        try:
+                            leave()
+                        except (ValueError, RuntimeError):
+                            errors.append("first worker could not leave its own block afterwards")
+                        if current_action() is not None:
+                            errors.append("first worker after leaving: current_action() is %s, expected None (bare thread)" % conc._desc(current_action()))
+
+                    def second():
+                        entered.wait(10)
+                        try:
+                            other_side(A, held)
+                        finally:
+                            done.set()
+
+                    t1 = threading.Thread(target=first)
+                    t2 = threading.Thread(target=second)
+                    t1.start(); t2.start(); t1.join(20); t2.join(20)
+                    A.finish()
+
+            contextvars.copy_context().run(run)
+        else:
+            async def main():
+                with start_action(action_type="c05:parent") as parent:
+                    A = start_action(action_type="c05:held")
+                    held = {}
+                    entered = asyncio.Event()
+                    done = asyncio.Event()
+
+                    async def first():
+                        if op == "close-generator":
+                            held["gen"] = generator_holding(A)
+                            next(held["gen"])
+                            first_side_check(A, "after advancing its generator")
+                            entered.set()
+                            await done.wait()
+                            first_side_check(A, "after the other task acted")
+                            return
+                        leave = holder_enter(A)
+                        first_side_check(A, "after entering")
+                        entered.set()
+                        await done.wait()
+                        first_side_check(A, "after the other task acted")
+                        try:
+                            leave()
+                        except (ValueError, RuntimeError):
+                            errors.append("first task could not leave its own block afterwards")
+                        if current_action() is not parent:
+                            errors.append("first task after leaving: current_action() is %s, expected the inherited parent" % conc._desc(current_action()))
+
+                    async def second():
+                        await entered.wait()
+                        try:
+                            if current_action() is not parent:
+                                errors.append("second task does not start with the inherited action")
+                            other_side(A, held)
+                            if current_action() is not parent:
+                                errors.append("second task afterwards: current_action() is %s, expected the inherited parent" % conc._desc(current_action()))
+                        finally:
+                            done.set()
+
+                    await asyncio.gather(first(), second())
+                    A.finish()
+
+            loop = asyncio.new_event_loop()
+            try:
+                contextvars.copy_context().run(loop.run_until_complete, main())
+            finally:
+                loop.close()
+    finally:
+        Logger._destinations = saved
+    require(not errors, "context-leak", lambda: "; ".join(errors[:4]))
+    return {"messages": len(msgs)}
+
+
+def classify_cross(case, info):
+    return True, ["mode:" + case["mode"], "op:" + case["op"], "held-via:" + case["how"], "second-worker-in-own-action" if case["own"] else "second-worker-bare"]
+
+
+def cross_runner(mod, facet, tier, seed, shard, nshards, stats):
+    from ..core import enumerate_cases
+
+    cases = []
+    for mode in ("thread", "async"):
+        for op in ("finish", "exit", "close-generator", "context", "run"):
+            for how in ("with", "context"):
+                for own in (0, 1):
+                    if op == "exit" and how != "with":
+                        continue
+                    cases.append({"mode": mode, "op": op, "how": how, "own": own})
+    stats.extra["enumerated_scenarios"] = len(cases)
+    enumerate_cases(mod, facet, cases, shard, nshards, stats, exhaustive=True)
+
+
 FACETS = [
     Facet("threads", lambda: strategy("thread"), check, classify, quick=300, thorough=6000),
     Facet("asyncio", lambda: strategy("async"), check, classify, quick=400, thorough=8000),
+    Facet("cross-effects", None, check_cross, classify_cross, quick=1, thorough=1, quick_shards=1, thorough_shards=1, runner=cross_runner),
 ]
